@@ -252,3 +252,54 @@ Section Oracles.
   Definition final (st : gstate) (ops : list op) : gstate :=
     fold_left (fun s o => fst (step s o)) ops st.
 End Oracles.
+
+(* ------------------------------------------------------------------ *)
+(* Histories in which the committed filter headers are REWRITTEN (filter
+   header store rolled back and re-written: a reorganisation, or the block
+   manager replacing headers).  The headers and the best height become
+   state.  GetCFilter takes its snapshot of the headers (prepareCFiltersQuery)
+   after it acquired the single-flight mutex, immediately before its own
+   request: a call queued behind another one therefore behaves exactly like
+   the sequential history  Call A; Rewrite; Call B.
+
+   Nothing in the code invalidates FilterCache / FilterDB entries when filter
+   headers are rewritten.  Ghost flag `stale` (root cause 1, never read by the
+   behaviour): set when a rewrite leaves an entry of the cache, the database
+   or the writer's queue that no longer satisfies the relation for the new
+   headers. *)
+Section Rewrites.
+  Variable Hf : Z -> Z -> Z.
+  Variable fsize : Z -> Z.
+  Variable cap : Z.
+  Variable persist : bool.
+
+  Record xstate := { base : gstate; hdrs : Z -> Z; xbest : Z; stale : bool }.
+
+  Inductive xop :=
+  | XBase (o : op)
+  | XRewrite (nb : Z) (nf : Z -> Z).    (* new best height, new committed headers *)
+
+  Definition entries (g : gstate) : list (Z * Z) := cache_view (cache g) ++ db g ++ dbq g.
+  Definition entry_ok (fh : Z -> Z) (p : Z * Z) : bool := Hf (snd p) (fh (fst p - 1)) =? fh (fst p).
+  Definition entries_ok (fh : Z -> Z) (g : gstate) : bool := forallb (entry_ok fh) (entries g).
+
+  Definition xstep (st : xstate) (o : xop) : xstate * obs :=
+    match o with
+    | XBase o' =>
+      let '(g, ob) := step Hf (hdrs st) fsize (xbest st) cap persist (base st) o' in
+      ({| base := g; hdrs := hdrs st; xbest := xbest st; stale := stale st |}, ob)
+    | XRewrite nb nf =>
+      ({| base := base st; hdrs := nf; xbest := nb;
+          stale := stale st || negb (entries_ok nf (base st)) |},
+       mk_obs (base st) RNone false (0, 0) [])
+    end.
+
+  Fixpoint xrun (st : xstate) (ops : list xop) : list obs :=
+    match ops with
+    | [] => []
+    | o :: rest => let '(st', ob) := xstep st o in ob :: xrun st' rest
+    end.
+
+  Definition xfinal (st : xstate) (ops : list xop) : xstate :=
+    fold_left (fun s o => fst (xstep s o)) ops st.
+End Rewrites.
